@@ -341,7 +341,7 @@ def oracle(env):
 
 def locality_jobs(tier):
     out = []
-    stride = 4 if tier == 'quick' else 1
+    stride = 6 if tier == 'quick' else 1
     for opt in ('transform_on', 'merge_props', 'enable_object_slots', 'resolve_type', 'custom_element_patterns'):
         for frm, mod in SRC.items():
             if frm == 'c12':
@@ -397,7 +397,7 @@ def main(argv):
     import importlib
     elements.triage(rep, PROP, importlib.import_module(MOD), raw, classify)
     rep.bounds = {'config_object': 'up to 2 (quick) / 3 (thorough) keys, each a fully symbolic printable-ASCII string of every length a documented key has plus lengths 1,5,9,12; boolean values symbolic',
-                  'locality': 'every 4th (quick) / every (thorough) quick-tier skeleton of the C01/C03/C04/C05/C13 spaces that does not use the governed feature, run with the option off and on'}
+                  'locality': 'every 6th (quick) / every (thorough) quick-tier skeleton of the C01/C03/C04/C05/C13 spaces that does not use the governed feature, run with the option off and on'}
     rep.assumptions = ['serde_json (text -> MapAccess calls) and the wasm plugin entry are outside: kernel B starts at the serde-derived visitor of Options, which is in the crate MIR',
                        'JSON object keys are pairwise distinct', 'invalid regex rejection lives in the regex crate (outside)']
     rep.notes.append('the JSON-text half of the statement (spellings accepted by serde_json, invalid pattern rejection) is not decided; see DESIGN.md')
